@@ -4,6 +4,7 @@ import (
 	"encoding/json"
 	"fmt"
 	"sort"
+	"strings"
 
 	"github.com/dcaiafa/lox/internal/lexergen/rang3"
 	"github.com/dcaiafa/lox/verif/internal/ivl"
@@ -331,6 +332,47 @@ func c15Worker(c *mc.Ctx) {
 		}
 		for _, v := range c02One(ws, "class", int64(i), s, 1, &c.Stats, "C15", inDomain) {
 			c.Stats.Violate(v)
+		}
+		// the same class with its non-ASCII code points typed verbatim in the source
+		if strings.Contains(s.OneLine(), "\\u") || strings.Contains(s.OneLine(), "\\U") {
+			lexref.Raw = true
+			raw := s.OneLine()
+			if strings.ContainsAny(raw, "\u0080\u00e9") || raw != "" {
+				for _, v := range c02One(ws, "class-raw", int64(i), s, 1, &c.Stats, "C15", inDomain) {
+					v.Kind += "-raw-text"
+					c.Stats.Violate(v)
+				}
+				c.Stats.Add("classes_also_written_with_verbatim_characters", 1)
+			}
+			lexref.Raw = false
+		}
+	}
+	// classes and literals over printable non-ASCII characters, written verbatim and escaped
+	{
+		pts := []int{0xE9, 0x3B1, 0x3C9, 0x20AC, 0x1F600, 'a'}
+		var specs []*lexref.Spec
+		for i, x := range pts {
+			for _, y := range pts[i:] {
+				specs = append(specs,
+					&lexref.Spec{Modes: []lexref.Mode{{Rules: []lexref.Rule{{K: lexref.RToken, Name: "T1", Rx: lexref.Cls(&lexref.Class{Items: []lexref.ClassItem{lexref.Range(x, y)}})}}}}},
+					&lexref.Spec{Modes: []lexref.Mode{{Rules: []lexref.Rule{{K: lexref.RToken, Name: "T1", Rx: lexref.Cls(&lexref.Class{Neg: true, Items: []lexref.ClassItem{lexref.Ch(x), lexref.Ch(y)}})}}}}},
+					&lexref.Spec{Modes: []lexref.Mode{{Rules: []lexref.Rule{{K: lexref.RToken, Name: "T1", Rx: lexref.LitCP(x, y)}, {K: lexref.RToken, Name: "T2", Rx: lexref.LitCP(y)}}}}})
+			}
+		}
+		for i, s := range specs {
+			if !c.Mine(int64(i)) {
+				continue
+			}
+			for _, raw := range []bool{false, true} {
+				lexref.Raw = raw
+				for _, v := range c02One(ws, fmt.Sprintf("nonascii-raw=%v", raw), int64(i), s, 2, &c.Stats, "C15", inDomain) {
+					if raw {
+						v.Kind += "-raw-text"
+					}
+					c.Stats.Violate(v)
+				}
+				lexref.Raw = false
+			}
 		}
 	}
 	// (c) overlapping classes in one mode: splitting feeds on its own output
